@@ -13,7 +13,8 @@ import H2V.Lemmas.ConnRecvPConn
   What is proved here, about the model `H2V/Model/Conn*.lean`, for ALL histories:
     * "never over-credited", "conserved", "credited back exactly", "returns to its configured size"
       at CONNECTION level: theorems 1–6, for every state reachable through any sequence of calls of
-      the stream layer with any arguments (`Reach`);
+      the stream layer with any arguments (`Reach`); theorem 10: a stream without handle gives
+      everything back exactly once;
     * the same at STREAM level: theorems 7–9, for histories in which `apply_local_settings` and
       `Inner::send_reset` did not fail (`ReachOk`; a failure is a connection error, see the notes).
   The last clause, "no connection is ever left permanently short of credit", was FALSE for the
@@ -207,6 +208,33 @@ example : ∃ x ∈ exStream.store.slab, x.key ∈ exStream.store.ids.map (·.2)
     2 * x.recvFlow.windowSize.val ≤ (exStream.recv.initWindowSz : Int) ∧
     x.recvFlow.windowSize.val < (exStream.recv.initWindowSz : Int) := by decide +kernel
 
+/-- **10. A stream whose last handle is gone gives everything back, exactly once.**
+    `release_closed_capacity(stream)` is what `drop_stream_ref` calls when no handle of a stream is
+    left — on the stream itself and (since the repair F30) on every stream promised on it that the
+    application never polled.  Whatever the stream holds, `n = in_flight_recv_data` octets, moves from
+    the connection's `in_flight_data` to its `available`, once (`n ≤ in_flight_data`, no wrap); the
+    window the peer sees does not move (the next WINDOW_UPDATE, theorem 3, announces it); afterwards
+    the stream has nothing in flight and nothing buffered, so nothing can be given back twice. -/
+theorem dropped_stream_credited_exactly_once {g : Ghost} {s : Streams} (h : Reach g s) (id : Nat) {x : Stream}
+    (hx : s.store.get? id = some x) :
+    x.inFlightRecvData ≤ cI s ∧
+    cW (s.releaseClosedCapacity id) = cW s ∧
+    cA (s.releaseClosedCapacity id) = cA s + x.inFlightRecvData ∧
+    cI (s.releaseClosedCapacity id) = cI s - x.inFlightRecvData ∧
+    ∃ x', (s.releaseClosedCapacity id).store.get? id = some x' ∧ x'.inFlightRecvData = 0 ∧
+      x'.recvFlow = x.recvFlow ∧ x'.pendingRecv = [] :=
+  releaseClosedCapacity_exact (reach_inv h) id hx
+
+/-- non-vacuity: the history of F30 before the handles are dropped — the never-polled pushed stream
+    (key 1) holds 10 octets; `pushed_stream_data_credited_back` is the whole history: after the two
+    `drop_stream_ref` nothing is in flight and `available` is back at 65 535 -/
+example : Reach Ghost.init (runOps leakStart (leakOps.take 6)) ∧
+    ((runOps leakStart (leakOps.take 6)).store.get? 1).map (·.inFlightRecvData) = some 10 :=
+  ⟨(reachOk_runOps (.init leakStart_init) (leakOps.take 6) (by decide +kernel)).reach, by decide +kernel⟩
+
+example : cI (runOps leakStart leakOps) = 0 ∧ cA (runOps leakStart leakOps) = 65535 :=
+  ⟨pushed_stream_data_credited_back.2.1, pushed_stream_data_credited_back.2.2.1⟩
+
 end H2V.Props.C03
 
 #print axioms H2V.Props.C03.connection_window_conserved
@@ -218,3 +246,4 @@ end H2V.Props.C03
 #print axioms H2V.Props.C03.stream_window_conserved
 #print axioms H2V.Props.C03.stream_window_update_exact
 #print axioms H2V.Props.C03.stream_window_restored
+#print axioms H2V.Props.C03.dropped_stream_credited_exactly_once
